@@ -89,14 +89,14 @@ type c16Env struct {
 	// awaitSend: the recovery send-timer event was consumed; c16Sender.Send continues the schedule
 	awaitSend bool
 	nmsg      int
-	ref     layers.BFDState // reference machine
-	peer    layers.BFDState // reference peer (recovery phase)
-	lastEv  int
-	lastSt  layers.BFDState
-	cur     *layers.BFD // the packet behind the pending / last consumed message event
-	events  int
-	sent    int
-	upRound int // number of completed recovery rounds
+	ref       layers.BFDState // reference machine
+	peer      layers.BFDState // reference peer (recovery phase)
+	lastEv    int
+	lastSt    layers.BFDState
+	cur       *layers.BFD // the packet behind the pending / last consumed message event
+	events    int
+	sent      int
+	upRound   int // number of completed recovery rounds
 }
 
 var c16 *c16Env
@@ -334,15 +334,15 @@ func (x c16Sender) Send(p *layers.BFD) error {
 func c16ScriptPacket(i int) *layers.BFD {
 	sfx := string([]byte{'0' + byte(i)})
 	m := &layers.BFD{
-		Version:               1,
-		Diagnostic:            layers.BFDDiagnostic(verif.NondetU8("diag" + sfx)),
-		State:                 layers.BFDState(verif.Choose("state", 4)), // 2-bit field: all values
+		Version:                 1,
+		Diagnostic:              layers.BFDDiagnostic(verif.NondetU8("diag" + sfx)),
+		State:                   layers.BFDState(verif.Choose("state", 4)), // 2-bit field: all values
 		ControlPlaneIndependent: verif.NondetBool("cpi" + sfx),
-		DetectMultiplier:      layers.BFDDetectMultiplier(verif.NondetU8("mult" + sfx)),
-		MyDiscriminator:       layers.BFDDiscriminator(verif.NondetU32("my" + sfx)),
-		YourDiscriminator:     layers.BFDDiscriminator(verif.NondetU32("your" + sfx)),
-		DesiredMinTxInterval:  layers.BFDTimeInterval(verif.NondetU32("tx" + sfx)),
-		RequiredMinRxInterval: layers.BFDTimeInterval(verif.NondetU32("rx" + sfx)),
+		DetectMultiplier:        layers.BFDDetectMultiplier(verif.NondetU8("mult" + sfx)),
+		MyDiscriminator:         layers.BFDDiscriminator(verif.NondetU32("my" + sfx)),
+		YourDiscriminator:       layers.BFDDiscriminator(verif.NondetU32("your" + sfx)),
+		DesiredMinTxInterval:    layers.BFDTimeInterval(verif.NondetU32("tx" + sfx)),
+		RequiredMinRxInterval:   layers.BFDTimeInterval(verif.NondetU32("rx" + sfx)),
 	}
 	verif.Assume(m.Diagnostic < 32)
 	verif.Assume(m.DetectMultiplier != 0)
